@@ -5,8 +5,8 @@
    local* used directly as the left operand of an arithmetic/bitwise/comparison operator is read
    when the operator executes, i.e. after the right operand has been evaluated.
    Compiler model [comp] = cgenerator.lua visitors.BinaryOp / visitor_Call with the analyzer's
-   `sideeffect` attribute (analyzer.lua: a call has it iff the callee's type has it - the arguments'
-   attributes are not propagated -, an operator iff one of its operands has it).
+   `sideeffect` attribute (analyzer.lua: a call has it iff the callee's type has it or one of its arguments
+   has it - the latter since /repo 7b4cb3f -, an operator iff one of its operands has it).
    C semantics [ceval] of the output: operands of a plain C operator and the arguments of a plain C
    call are evaluated in an order chosen by an oracle (a list of naturals consumed left to right);
    statement-expression temporaries are sequenced.  No proofs here. *)
@@ -87,7 +87,7 @@ Fixpoint leval (fe : fenv) (e : expr) (st : state) : state * Z :=
 Fixpoint has_se (fe : fenv) (e : expr) : bool :=
   match e with
   | EConst _ | EVar _ _ => false
-  | ECall f _ => f_se (fe f)
+  | ECall f args => f_se (fe f) || existsb (has_se fe) args      (* arguments propagate since /repo 7b4cb3f *)
   | EBin _ l r => has_se fe l || has_se fe r
   end.
 
